@@ -36,3 +36,133 @@ def scalar_keys(ps: 'Seq[YPair]', i: int) -> bool:
 def scalar_keys_member(ps: 'Seq[YPair]', i: int, n: int) -> bool:
     return implies(0 <= i and i < n and scalar_keys(ps, n),
                    ps[i].k.kind == SCALAR)
+
+
+# ---- map_attribute_to_index (C15): {k1: v1, ...} -> {k1: v1', ...} where a
+# mapping value gets the pair (key_attribute: k) appended and, if a value
+# attribute is named, a non-mapping value v becomes {value_attribute: v,
+# key_attribute: k}
+
+def str_scalar(s: str, sm: int, em: int) -> 'YNode':
+    return N(SCALAR, STR_TAG, s, empty_nodes(), empty_pairs(), sm, em)
+
+
+def m2i_key_pair(p: 'YPair', ka: str) -> 'YPair':
+    """(key_attribute: copy of the key node), positioned at the key"""
+    return P(str_scalar(ka, p.k.smark, p.k.emark), p.k)
+
+
+def m2i_val(p: 'YPair', ka: str, va: 'PV') -> 'YNode':
+    if p.v.kind == MAP:
+        return with_pairs(p.v, p.v.pairs + [m2i_key_pair(p, ka)])
+    if pv_is_none(va):
+        return p.v
+    return N(MAP, MAP_TAG, '', empty_nodes(),
+             [P(str_scalar(pv_str(va), p.v.smark, p.v.emark), p.v),
+              m2i_key_pair(p, ka)], p.v.smark, p.v.emark)
+
+
+@spec(local=('ps', 'i'))
+def m2i_pairs(ps: 'Seq[YPair]', ka: str, va: 'PV', i: int) -> 'Seq[YPair]':
+    """the new value list after the first i entries"""
+    if i <= 0:
+        return empty_pairs()
+    return m2i_pairs(ps, ka, va, i - 1) + [
+        P(ps[i - 1].k, m2i_val(ps[i - 1], ka, va))]
+
+
+def m2i_inplace(p: 'YPair', ka: str) -> 'YPair':
+    """what the loop leaves in the OLD list while it runs: mapping values are
+    extended in place, everything else is untouched"""
+    if p.v.kind == MAP:
+        return P(p.k, with_pairs(p.v, p.v.pairs + [m2i_key_pair(p, ka)]))
+    return p
+
+
+@spec(local=('ps', 'i'))
+def m2i_mid(ps: 'Seq[YPair]', ka: str, i: int) -> 'Seq[YPair]':
+    if i <= 0:
+        return empty_pairs()
+    return m2i_mid(ps, ka, i - 1) + [m2i_inplace(ps[i - 1], ka)]
+
+
+@lemma(induct='n', triggers=['m2i_mid(ps, ka, n)'])
+def m2i_mid_len(ps: 'Seq[YPair]', ka: str, n: int) -> bool:
+    return implies(0 <= n, len(m2i_mid(ps, ka, n)) == n)
+
+
+@lemma(induct='n', triggers=['m2i_pairs(ps, ka, va, n)'])
+def m2i_pairs_len(ps: 'Seq[YPair]', ka: str, va: 'PV', n: int) -> bool:
+    return implies(0 <= n, len(m2i_pairs(ps, ka, va, n)) == n)
+
+
+# ---- index_attribute_to_map (C15), the reverse: each mapping value loses its
+# key_attribute pairs; a value left with the single pair (value_attribute: x)
+# is replaced by x
+
+@spec(local=('ps', 'i'))
+def without_key(ps: 'Seq[YPair]', ka: str, i: int) -> 'Seq[YPair]':
+    """the first i pairs without those keyed ka"""
+    if i <= 0:
+        return empty_pairs()
+    if keyeq(ps[i - 1], ka):
+        return without_key(ps, ka, i - 1)
+    return without_key(ps, ka, i - 1) + [ps[i - 1]]
+
+
+def stripped(v: 'YNode', ka: str) -> 'YNode':
+    return with_pairs(v, without_key(v.pairs, ka, len(v.pairs)))
+
+
+def i2m_val(p: 'YPair', ka: str, va: 'PV') -> 'YNode':
+    if (len(stripped(p.v, ka).pairs) == 1 and pv_is_str(va)
+            and keyeq(stripped(p.v, ka).pairs[0], pv_str(va))):
+        return stripped(p.v, ka).pairs[0].v
+    return stripped(p.v, ka)
+
+
+@spec(local=('ps', 'i'))
+def i2m_pairs(ps: 'Seq[YPair]', ka: str, va: 'PV', i: int) -> 'Seq[YPair]':
+    if i <= 0:
+        return empty_pairs()
+    return i2m_pairs(ps, ka, va, i - 1) + [
+        P(ps[i - 1].k, i2m_val(ps[i - 1], ka, va))]
+
+
+@spec(local=('ps', 'i'))
+def i2m_mid(ps: 'Seq[YPair]', ka: str, i: int) -> 'Seq[YPair]':
+    """the old list while the loop runs: the first i values stripped in
+    place"""
+    if i <= 0:
+        return empty_pairs()
+    return i2m_mid(ps, ka, i - 1) + [P(ps[i - 1].k, stripped(ps[i - 1].v, ka))]
+
+
+@spec
+def all_maps(ps: 'Seq[YPair]', i: int) -> bool:
+    """the first i values are mappings"""
+    if i <= 0:
+        return True
+    return all_maps(ps, i - 1) and ps[i - 1].v.kind == MAP
+
+
+@lemma(induct='n', triggers=['all_maps(ps, n)', 'all_maps(ps, i)'])
+def all_maps_member(ps: 'Seq[YPair]', i: int, n: int) -> bool:
+    return implies(0 <= i and i < n and all_maps(ps, n),
+                   ps[i].v.kind == MAP and all_maps(ps, i))
+
+
+@lemma(induct='n', triggers=['all_maps(ps, n)', 'all_maps(ps, i)'])
+def all_maps_bad(ps: 'Seq[YPair]', i: int, n: int) -> bool:
+    return implies(0 <= i and i < n and ps[i].v.kind != MAP,
+                   not all_maps(ps, n))
+
+
+@lemma(induct='n', triggers=['i2m_mid(ps, ka, n)'])
+def i2m_mid_len(ps: 'Seq[YPair]', ka: str, n: int) -> bool:
+    return implies(0 <= n, len(i2m_mid(ps, ka, n)) == n)
+
+
+@lemma(induct='n', triggers=['i2m_pairs(ps, ka, va, n)'])
+def i2m_pairs_len(ps: 'Seq[YPair]', ka: str, va: 'PV', n: int) -> bool:
+    return implies(0 <= n, len(i2m_pairs(ps, ka, va, n)) == n)
